@@ -701,7 +701,9 @@ func (c *Compiler) compileAssign(
 	_, isFunc := rhs[0].(*parser.FuncLit)
 	symbol, depth, exists := c.symbolTable.Resolve(ident, false)
 	if op == token.Define {
-		if depth == 0 && exists {
+		// a builtin function lives in the root table but is not a
+		// declaration of this block: it may be shadowed here as anywhere else
+		if depth == 0 && exists && symbol.Scope != ScopeBuiltin {
 			return c.errorf(node, "'%s' redeclared in this block", ident)
 		}
 		if isFunc {
